@@ -106,6 +106,9 @@ def render(lexemes, sp=None):
                 pair = prev[-1:] + w[:1]
                 if pair in ("**", "..", ":=", "=>", "<=", ">=", "<>", "(*", "*)", "//", "1.", ".1") or (prev[-1:].isdigit() and w[:1] == ".") or (prev[-1:] == "." and w[:1].isdigit()):
                     must = True
+                # ... but a range '..' may touch the integers around it (1..5): only a single '.' would make a real number
+                if (w == ".." and prev[-1:].isdigit()) or (prev == ".." and w[:1].isdigit()):
+                    must = False
             g = sp.gap(must)
             if must and g == "":
                 g = " "
